@@ -89,10 +89,21 @@ impl RequestHandlerPipeline {
                 tracing::debug!("{msg}");
             }
 
+            // Verification hook: the bindings before the loop, what each invocation asked for and was handed.
+            #[cfg(pavex_verif)]
+            let verif_initial: Vec<(String, String, bool)> = input_bindings
+                .0
+                .iter()
+                .map(|b| (b.ident.clone(), format!("{:?}", b.type_.canonicalize()), b.mutable))
+                .collect();
+            #[cfg(pavex_verif)]
+            let mut verif_calls: Vec<(bool, Vec<(String, String)>)> = Vec::new();
             let invocations = {
                 let mut invocations = BTreeMap::new();
                 for (index, id) in ordered_by_invocation.iter().enumerate() {
                     let fn_ = &id2codegened_fn[id].fn_;
+                    #[cfg(pavex_verif)]
+                    verif_calls.push((component_db.is_post_processing_middleware(*id), Vec::new()));
                     if component_db.is_post_processing_middleware(*id) {
                         input_bindings.0.push(Binding {
                             ident: response_ident.to_string(),
@@ -122,6 +133,11 @@ impl RequestHandlerPipeline {
                                             Input bindings: {bindings}")
                                     }
                                     Some(i) => {
+                                        #[cfg(pavex_verif)]
+                                        verif_calls.last_mut().unwrap().1.push((
+                                            format!("{:?}", input_type.canonicalize()),
+                                            i.to_token_stream().to_string(),
+                                        ));
                                         let mut output = i.to_token_stream();
                                         if let Some(cloning_indexes) = stage.type2cloning_indexes.get(&input_type.canonicalize())
                                             && cloning_indexes.contains(&index) {
@@ -144,6 +160,44 @@ impl RequestHandlerPipeline {
                 }
                 invocations
             };
+            #[cfg(pavex_verif)]
+            {
+                use crate::compiler::verif::json_string;
+                let b = |v: &[(String, String, bool)]| {
+                    v.iter()
+                        .map(|(i, t, m)| format!("[{},{},{}]", json_string(i), json_string(t), m))
+                        .collect::<Vec<_>>()
+                        .join(",")
+                };
+                let final_: Vec<(String, String, bool)> = input_bindings
+                    .0
+                    .iter()
+                    .map(|b| (b.ident.clone(), format!("{:?}", b.type_.canonicalize()), b.mutable))
+                    .collect();
+                let calls = verif_calls
+                    .iter()
+                    .map(|(post, args)| {
+                        format!(
+                            "{{\"post\":{},\"args\":[{}]}}",
+                            post,
+                            args.iter()
+                                .map(|(t, e)| format!("[{},{}]", json_string(t), json_string(e)))
+                                .collect::<Vec<_>>()
+                                .join(",")
+                        )
+                    })
+                    .collect::<Vec<_>>()
+                    .join(",");
+                crate::compiler::verif::dump_line(format!(
+                    "{{\"ev\":\"stage_bindings\",\"stage\":{},\"response\":[{},{}],\"initial\":[{}],\"calls\":[{}],\"final\":[{}]}}",
+                    json_string(&stage.name),
+                    json_string(&response_ident.to_string()),
+                    json_string(&format!("{:?}", component_db.pavex_response.canonicalize())),
+                    b(&verif_initial),
+                    calls,
+                    b(&final_)
+                ));
+            }
 
             let fn_ = {
                 let asyncness = ordered_by_invocation
